@@ -10,7 +10,8 @@
 (*   - every accessor succeeds exactly on the variant it names and returns *)
 (*     the payload; it is an error on every other variant                  *)
 (*   - a finite float inside the decimal range becomes a number within     *)
-(*     relative error 10^-14 (f32: 10^-6) or absolute error 10^-28 of it;  *)
+(*     relative error 10^-14 (f32: 10^-6) or absolute error 10^-28 of it,  *)
+(*     and exactly that number when the float is a whole number;           *)
 (*     a non-finite or out-of-range float must not become a number         *)
 (* A float is given exactly as (neg, mantissa, exponent): m * 2^e.         *)
 (***************************************************************************)
@@ -40,9 +41,16 @@ FloatClose(neg, m, e, d, relDigits) ==
      /\ (d.neg = neg \/ DIsZero(d))
      /\ \/ BLe(BTimesPow10(diff, relDigits), B)              \* relative error
         \/ BLe(BTimesPow10(diff, 28), BTimesPow10(p, d.scale))   \* absolute error <= 10^-28
+\* a float whose value is an integer: it has an exact decimal image whenever it is in range, and "no conversion ever yields
+\* a different number" then means that image (2^63 must not become i64::MAX)
+FloatIsWhole(m, e) == e >= 0 \/ BIsZero(BDivMod(m, BPow2(-e))[2])
+FloatExact(neg, m, e, d) ==
+  /\ (d.neg = neg \/ DIsZero(d))
+  /\ IF e >= 0 THEN BEq(BTimesPow10(BMul(m, BPow2(e)), d.scale), d.mag)
+               ELSE BEq(BMul(d.mag, BPow2(-e)), BTimesPow10(m, d.scale))
 FloatInRange(m, e) == IF e >= 0 THEN BLe(BMul(m, BPow2(e)), MAXMANT) ELSE BLe(m, BMul(MAXMANT, BPow2(-e)))
 FromFloatOk(class, neg, m, e, relDigits, actual) ==
   IF class = "finite" /\ FloatInRange(m, e)
-  THEN actual[1] = "num" /\ FloatClose(neg, m, e, VDec(actual), relDigits)
+  THEN actual[1] = "num" /\ (IF FloatIsWhole(m, e) THEN FloatExact(neg, m, e, VDec(actual)) ELSE FloatClose(neg, m, e, VDec(actual), relDigits))
   ELSE actual[1] \notin {"num", "panic"}
 ====
